@@ -91,7 +91,13 @@ async def l3_backend(part, kind, msgs, r):
         return c
     c = await connect(True)
     try:
+        twins = []
         for b in msgs:
+            t = checksum_twin(b)
+            twins.append(b)
+            if t is not None and r.random() < 0.5:
+                twins.append(t)         # stored while the original is still in the mailbox
+        for b in twins:
             try:
                 await one_message(part, kind, c, b, r)
             except imapresp.Malformed as exc:
@@ -125,6 +131,17 @@ def expected_store(kind, b, copy=False):
         return bytes(md.get_message(key))
     finally:
         shutil.rmtree(d, ignore_errors=True)
+
+
+def checksum_twin(b):
+    """a different message of the same length with the same adler32 (and byte sum): (x, y, z) -> (x+1, y-2, z+1)"""
+    bb = bytearray(b)
+    for i in range(len(bb) - 3, -1, -1):
+        x, y, z = bb[i], bb[i + 1], bb[i + 2]
+        if x < 255 and y >= 2 and z < 255 and all(v not in (10, 13) for v in (x, y, z, x + 1, y - 2, z + 1)):
+            bb[i], bb[i + 1], bb[i + 2] = x + 1, y - 2, z + 1
+            return bytes(bb)
+    return None
 
 
 async def one_message(part, kind, c, b, r):
